@@ -268,6 +268,9 @@ fn detect_line_ending(text: &str) -> &'static str {
 }
 
 fn split_lines(text: &str) -> (Vec<String>, bool) {
+    if text.is_empty() {
+        return (Vec::new(), false);
+    }
     let trailing = text.ends_with('\n');
     let mut lines = text
         .split('\n')
